@@ -1746,10 +1746,10 @@ pub fn c12_worker(ctx: &mut Ctx) {
         }
         // shallow exact crossings (family D6, fixed generator streams): compared across build variants AND across worker
         // processes whose first library call was f32 (odd shards) or f64 (even shards)
-        for k in 0..3u64 {
+        for k in 0..4u64 {
             let mut prng = Rng::keyed(20260926, "C12/probe-shallow", k);
             let c = gen_shallow(&mut prng);
-            let op = OPS[(k as usize + ctx.shard as usize) % 4];
+            let op = OPS[k as usize % 4]; // the same probe in every worker: odd (f32-first) and even (f64-first) shards must agree
             ctx.begin("probe-shallow", k, "");
             ctx.evaluations += 1;
             if let Ok(r) = run(&c.a, &c.b, op, false) {
